@@ -353,6 +353,7 @@ def exists_box(dims, f):
     return z3.Exists(ks, body)
 
 
+SUM_DEFS = {}
 CONGRUENT_DECLS = set()   # names of uninterpreted functions with array arguments (assumed row-wise callables)
 
 
@@ -372,13 +373,14 @@ def smart_eq(x, y, depth=0):
         return z3.If(x.arg(0), to_z3(smart_eq(x.arg(1), y, depth + 1)), to_z3(smart_eq(x.arg(2), y, depth + 1)))
     if z3.is_app_of(y, z3.Z3_OP_ITE):
         return z3.If(y.arg(0), to_z3(smart_eq(x, y.arg(1), depth + 1)), to_z3(smart_eq(x, y.arg(2), depth + 1)))
-    if z3.is_app(x) and z3.is_app(y) and x.decl().name() in ('SUM_int', 'SUM_real') and x.decl().eq(y.decl()):
+    if z3.is_app(x) and z3.is_app(y) and x.decl().name() in SUM_DEFS and y.decl().name() in SUM_DEFS:
         # sum_congr_range (lean/Lemmas.lean): equal bounds and equal summands on the range
-        a1, lo1, hi1 = x.children()
-        a2, lo2, hi2 = y.children()
+        from .lib import sum_summand
         k = z3.Int('cg!%d' % next(_fresh_ctr))
-        sa = z3.simplify(z3.Select(a1, k))
-        sb = z3.simplify(z3.Select(a2, k))
+        nx, ny = x.num_args(), y.num_args()
+        lo1, hi1, lo2, hi2 = x.arg(nx - 2), x.arg(nx - 1), y.arg(ny - 2), y.arg(ny - 1)
+        sa = z3.simplify(sum_summand(x, k))
+        sb = z3.simplify(sum_summand(y, k))
         return And(eq(lo1, lo2), eq(hi1, hi2), Implies(And(lo1 <= k, k < hi1), smart_eq(sa, sb, depth + 1)))
     if z3.is_app(x) and z3.is_app(y) and x.decl().name() in CONGRUENT_DECLS and x.decl().eq(y.decl()):
         conj = []
